@@ -563,9 +563,14 @@ impl CoreInner {
 		let wal_dir = self.wal.read().get_dir_path().to_path_buf();
 		// Only what the manifest has released (may be less than this memtable's
 		// own segment, see `releasable_log_number`).
-		let min_wal_to_keep = self.level_manifest.read()?.get_log_number();
+		// ... and read when the task runs, not now: a restore in between rewinds the
+		// log number, and the segments this flush released are then live again.
+		let manifest = Arc::clone(&self.level_manifest);
 
 		tokio::spawn(async move {
+			let Ok(min_wal_to_keep) = manifest.read().map(|m| m.get_log_number()) else {
+				return;
+			};
 			match cleanup_old_segments(&wal_dir, min_wal_to_keep) {
 				Ok(count) if count > 0 => {
 					log::info!(
